@@ -7,6 +7,9 @@ the iteration order as an explicit adversarial parameter (`Order`, applied to th
 Go `*group` pointers are indices into an append-only heap of package lists, so that pointer
 identity (`replacee == g`, the `seen` set) is index equality.
 
+The model mirrors the repaired tree: a negative budget is rejected with an error (it used to
+panic in `make([]*group, 0, budget)`).
+
 splitLayers is modelled over an abstract walk (what `walkFS` yields): path components,
 directory flag, owning package (what `memFileInfo.Package()` answers), ModTime, and an opaque
 number standing for everything else in the header and the content.  `*file` pointers are
